@@ -4,6 +4,7 @@ package userauth
 import (
 	"encoding/binary"
 	"io"
+	"math"
 
 	"github.com/sirupsen/logrus"
 
@@ -32,7 +33,12 @@ func newUserAuthInitMsg(user string) *userAuthInitMsg {
 	}
 }
 
+// toBytes returns nil for a user name that does not fit the two-byte length
+// prefix.
 func (msg *userAuthInitMsg) toBytes() []byte {
+	if len(msg.username) > math.MaxUint16 {
+		return nil
+	}
 	length := headerLen + len(msg.username)
 	s := make([]byte, length)
 	binary.BigEndian.PutUint16(s[usernameLenOffset:usernameOffset], uint16(len(msg.username)))
@@ -44,7 +50,8 @@ func (msg *userAuthInitMsg) toBytes() []byte {
 func RequestAuthorization(ch *tubes.Reliable, username string) bool {
 	mess := newUserAuthInitMsg(username).toBytes()
 	if len(mess) == 0 {
-		logrus.Errorf("C: client username empty userauth")
+		logrus.Errorf("C: user name cannot be encoded in a userauth request")
+		return false
 	}
 	ch.Write(mess)
 	//add timeout
